@@ -29,9 +29,11 @@ vars == <<gtx, lit, intx, nsteps, done, prog>>
 Init == /\ gtx \in Gtx /\ lit \in Lits /\ intx = FALSE /\ nsteps = 0 /\ done = FALSE /\ prog = <<>>
 
 \* the application's calls
-Begin ==
-  /\ ~done /\ ~intx /\ nsteps < MaxSteps
-  /\ intx' = TRUE /\ nsteps' = nsteps + 1 /\ prog' = Append(prog, "begin")
+\* opt: transaction options the application asks for ("begin" = default, "beginro" = read only,
+\* "beginser" = isolation level serializable): they must reach the database unchanged
+Begin(opt) ==
+  /\ ~done /\ ~intx /\ nsteps < MaxSteps /\ opt \in {"begin", "beginro", "beginser"}
+  /\ intx' = TRUE /\ nsteps' = nsteps + 1 /\ prog' = Append(prog, opt)
   /\ UNCHANGED <<gtx, lit, done>>
 
 EndTx(how) ==
@@ -63,7 +65,7 @@ Finish(sameData, sameJournal, appInOrder, extrasOK, tcreq) ==
   /\ UNCHANGED <<gtx, lit, intx, nsteps, prog>>
 
 Next ==
-  \/ Begin
+  \/ \E o \in {"begin", "beginro", "beginser"} : Begin(o)
   \/ \E h \in {"commit", "rollback"} : EndTx(h)
   \/ \E k \in StepKinds : Step(k, TRUE, TRUE)
   \/ Finish(TRUE, TRUE, TRUE, TRUE, 0)
